@@ -3,8 +3,8 @@ package main
 import (
 	"fmt"
 	"os"
-	"time"
 	"strings"
+	"time"
 
 	"golang.org/x/tools/go/ssa"
 )
@@ -80,7 +80,6 @@ func dumpEffects(p *Prog, pat string) {
 		}
 	}
 }
-
 
 func timing(name string) func() {
 	if os.Getenv("RAFTLINT_TIMING") == "" {
